@@ -436,6 +436,19 @@ class ScfHistories:
             want = float(get_Eewald(scf.atoms))
             if abs(float(scf.energies.Eewald) - want) > 1e-10:
                 bad.append(dict(history=f"run(); scf.atoms = new geometry ({desc}); run()", stored_Eewald=float(scf.energies.Eewald), lattice_sum_of_current_geometry=want, first_run=e1))
+        # the atoms replaced on an object with an all-electron / model potential (no pseudopotential data involved): the potential follows
+        for pot in ("coulomb", "lr", "harmonic", "ge", "gth"):
+            for desc, atB in (("one atom moved", lambda: Atoms(["Li", "H"], [[0.0, 0.0, 0.0], [0.4, 0.3, 3.3]], ecut=3, a=7.0)),
+                              ("another system and sampling", lambda: Atoms(["He", "He"], [[0.1, 0.2, 0.3], [2.0, 2.5, 3.0]], ecut=4, a=[[6.0, 0.3, 0.0], [0.0, 6.5, 0.2], [0.1, 0.0, 7.0]]))):
+                try:
+                    scf = SCF(Atoms(["Li", "H"], [[0.0, 0.0, 0.0], [0.0, 0.3, 2.9]], ecut=3, a=7.0), pot=pot, verbose="critical")
+                    scf.atoms = atB()
+                    ref = SCF(atB(), pot=pot, verbose="critical")
+                    d = float("inf") if np.shape(scf.Vloc) != np.shape(ref.Vloc) else vdiff(scf.Vloc, ref.Vloc)
+                except Exception as e:  # noqa: BLE001
+                    d = f"raised {type(e).__name__}: {e}"
+                if isinstance(d, str) or d > 1e-12:
+                    bad.append(dict(history=f"SCF(LiH, pot={pot!r}); scf.atoms = new atoms ({desc})", Vloc_differs_from_fresh_by=d))
         # recenter of a converged calculation by a grid vector: orbitals and density move with the atoms, so the state stays converged
         for center, pos in ((None, [4.0, 2.5, 4.5]), ([2.0, 3.5, 2.5], [3.0, 3.0, 4.0])):
             for unres in (False, True):
